@@ -1,4 +1,5 @@
 import PdeVerif.Model.Expr
+import PdeVerif.Model.ExprIndex
 import PdeVerif.Lemmas.Basic
 import PdeVerif.Lemmas.ExprField
 import Mathlib.Data.List.Perm.Basic
@@ -805,6 +806,579 @@ example : eval (withUser (algTab : FunTab ℚ) [⟨"f", ["v"], .add (.powI (.var
 symbols of the prepared expression are then `x` or `a` -/
 example : checkSignature [["x", "q"]] ["a"] [] (.mul (.var "a") (.powI (.var "q") 2)) = true ∧
     symbols (prepare [["x", "q"]] [] (.mul (.var "a") (.powI (.var "q") 2))) = ["a", "x"] := by
+  decide +kernel
+
+
+/-! ## arrays of expressions: indexing (`TensorExpression.__getitem__`), Piecewise, `depends_on` -/
+
+section index
+variable {α β : Type}
+
+theorem sliceList_map (f : α → β) (l : List α) (a b : Option Int) :
+    sliceList (l.map f) a b = (sliceList l a b).map f := by
+  simp [sliceList, List.map_drop, List.map_take]
+
+theorem itemList_map (f : α → β) (l : List α) (i : Int) :
+    itemList (l.map f) i = (itemList l i).map f := by
+  unfold itemList
+  simp only [List.length_map]
+  cases normIdx l.length i <;> simp
+
+theorem optMapList_map {γ : Type} (f : α → β) (g : β → Option γ) (l : List α) :
+    optMapList g (l.map f) = optMapList (fun a => g (f a)) l := by
+  induction l with
+  | nil => rfl
+  | cons a as ih => simp [optMapList, ih]
+
+theorem optMapList_map_out {γ : Type} (g : α → Option β) (f : β → γ) (l : List α) :
+    optMapList (fun a => (g a).map f) l = (optMapList g l).map (List.map f) := by
+  induction l with
+  | nil => rfl
+  | cons a as ih =>
+    simp only [optMapList, ih]
+    cases g a <;> cases optMapList g as <;> simp
+
+/-- indexing commutes with every componentwise map -/
+theorem getItem_map (f : α → β) (t : Ten α) (ix : List Ix) :
+    getItem (t.map f) ix = (getItem t ix).map (Ten.map f) := by
+  cases t with
+  | sc a => cases ix <;> simp [getItem, Ten.map]
+  | vec l =>
+    match ix with
+    | [] => simp [getItem, Ten.map]
+    | [.at i] =>
+      simp only [getItem, Ten.map, itemList_map]
+      cases itemList l i <;> simp [Ten.map]
+    | [.slice a b] => simp [getItem, Ten.map, sliceList_map]
+    | _ :: _ :: _ => simp [getItem, Ten.map]
+  | mat m =>
+    match ix with
+    | [] => simp [getItem, Ten.map]
+    | [.at i] =>
+      simp only [getItem, Ten.map, itemList_map]
+      cases itemList m i <;> simp [Ten.map]
+    | [.slice a b] => simp [getItem, Ten.map, sliceList_map]
+    | [.at i, .at j] =>
+      simp only [getItem, Ten.map, itemList_map]
+      cases itemList m i with
+      | none => simp
+      | some row =>
+        simp only [Option.map_some, Option.bind_some, itemList_map]
+        cases itemList row j <;> simp [Ten.map]
+    | [.at i, .slice c d] =>
+      simp only [getItem, Ten.map, itemList_map]
+      cases itemList m i <;> simp [sliceList_map, Ten.map]
+    | [.slice a b, .at j] =>
+      simp only [getItem, Ten.map, sliceList_map, optMapList_map, itemList_map,
+        optMapList_map_out]
+      cases optMapList (fun row => itemList row j) (sliceList m a b) <;> simp [Ten.map]
+    | [.slice a b, .slice c d] =>
+      simp [getItem, Ten.map, sliceList_map, Function.comp_def]
+    | _ :: _ :: _ :: _ => simp [getItem, Ten.map]
+
+end index
+
+section field
+variable {K : Type} [Field K] [LinearOrder K] [IsStrictOrderedRing K]
+
+/-- **index_eval**: evaluating an indexed array expression = indexing the evaluated array (same
+table - so the same user functions - and the same environment - so the same constants); in
+particular an index is refused for the expression iff it is refused for the value -/
+theorem index_eval (T : FunTab K) (env : Env K) (t : Ten Expr) (ix : List Ix) :
+    (getItem t ix).map (evalTen T env) = getItem (evalTen T env t) ix := by
+  unfold evalTen
+  rw [getItem_map]
+
+/-- a scalar component: `expr[i]` (rank 1) and `expr[i, j]` (rank 2) evaluate to the component of
+the evaluated array -/
+theorem index_eval_item (T : FunTab K) (env : Env K) (l : List Expr) (m : List (List Expr))
+    (i j : Int) :
+    (getItem (.vec l) [.at i]).map (evalTen T env) =
+      (itemList (evalVec T env l) i).map Ten.sc ∧
+    (getItem (.mat m) [.at i, .at j]).map (evalTen T env) =
+      ((itemList (evalMat T env m) i).bind (fun row => itemList row j)).map Ten.sc := by
+  constructor
+  · rw [index_eval]; simp [evalTen, Ten.map, getItem, evalVec]
+  · rw [index_eval]
+    have e : evalVec T env = fun row => List.map (eval T env) row := rfl
+    simp only [evalTen, Ten.map, getItem, evalMat, e]
+    cases itemList (List.map (fun row => List.map (eval T env) row) m) i <;> simp
+
+/-- `expr[i][j]` is `expr[i, j]`, `expr[i][c:d]` is `expr[i, c:d]` -/
+theorem index_index {α : Type} (m : List (List α)) (i : Int) (ix : Ix) :
+    (getItem (.mat m) [.at i]).bind (fun r => getItem r [ix]) = getItem (.mat m) [.at i, ix] := by
+  cases ix with
+  | «at» j => simp only [getItem]; cases itemList m i <;> simp
+  | slice c d => simp only [getItem]; cases itemList m i <;> simp
+
+/-- differentiating commutes with indexing: `expr[index].differentiate(x)` is
+`expr.differentiate(x)[index]` -/
+theorem index_diff (x : String) (t : Ten Expr) (ix : List Ix) :
+    (getItem t ix).map (Ten.map (diff x)) = getItem (t.map (diff x)) ix := by
+  rw [getItem_map]
+
+/-- shape of the results: an integer index removes an axis, a slice keeps it -/
+theorem index_rank {α : Type} (l : List α) (m : List (List α)) (i j : Int) (a b : Option Int)
+    (t : Ten α) :
+    (getItem (.vec l) [.at i] = some t → t.rank = 0) ∧
+    (getItem (.vec l) [.slice a b] = some t → t.rank = 1) ∧
+    (getItem (.mat m) [.at i] = some t → t.rank = 1) ∧
+    (getItem (.mat m) [.at i, .at j] = some t → t.rank = 0) ∧
+    (getItem (.mat m) [.slice a b] = some t → t.rank = 2) := by
+  refine ⟨?_, ?_, ?_, ?_, ?_⟩ <;> intro h <;> simp only [getItem] at h
+  · cases hi : itemList l i <;> simp [hi] at h; subst h; rfl
+  · cases h; rfl
+  · cases hi : itemList m i <;> simp [hi] at h; subst h; rfl
+  · cases hi : itemList m i with
+    | none => simp [hi] at h
+    | some row =>
+      simp only [hi, Option.bind_some] at h
+      cases hj : itemList row j <;> simp [hj] at h; subst h; rfl
+  · cases h; rfl
+
+/-! ### Piecewise -/
+
+/-- `Piecewise((a, c), (b, True))`: the value of `a` where the condition has the value 1, the value
+of `b` where it has the value 0 -/
+theorem select_eval (T : FunTab K) (env : Env K) (c a b : Expr) :
+    (eval T env c = 1 → eval T env (select c a b) = eval T env a) ∧
+    (eval T env c = 0 → eval T env (select c a b) = eval T env b) := by
+  constructor <;> intro h <;> simp [select, eval, h]
+
+theorem cmpVal_holds (op : Cmp) (a b : K) :
+    (op.holds a b → cmpVal op a b = 1) ∧ (¬ op.holds a b → cmpVal op a b = 0) := by
+  cases op <;> simp [cmpVal, Cmp.holds]
+
+/-- with the order-based comparison of the table (`primTab`, `algTab`, `withUser` of them), a
+Piecewise with a comparison as condition selects by the truth of the comparison -/
+theorem select_cmp_eval (T : FunTab K) (hT : T.cmp = cmpVal) (env : Env K) (op : Cmp)
+    (x y a b : Expr) :
+    (op.holds (eval T env x) (eval T env y) →
+      eval T env (select (.cmp op x y) a b) = eval T env a) ∧
+    (¬ op.holds (eval T env x) (eval T env y) →
+      eval T env (select (.cmp op x y) a b) = eval T env b) := by
+  have hc : eval T env (.cmp op x y) = cmpVal op (eval T env x) (eval T env y) := by
+    simp [eval, hT]
+  constructor <;> intro h
+  · exact (select_eval T env _ a b).1 (hc.trans ((cmpVal_holds op _ _).1 h))
+  · exact (select_eval T env _ a b).2 (hc.trans ((cmpVal_holds op _ _).2 h))
+
+/-- user functions keep the comparison of the base table -/
+theorem withUser_cmp (T : FunTab K) (defs : List UDef) : (withUser T defs).cmp = T.cmp := rfl
+
+end field
+
+theorem optMapList_eq_some_iff {α β : Type} (f : α → Option β) (l : List α) (r : List β) :
+    optMapList f l = some r ↔ l.map f = r.map some := by
+  induction l generalizing r with
+  | nil => cases r <;> simp [optMapList]
+  | cons a as ih =>
+    simp only [optMapList, List.map_cons]
+    cases hfa : f a with
+    | none => cases r <;> simp
+    | some b =>
+      cases hr : optMapList f as with
+      | none =>
+        cases r with
+        | nil => simp
+        | cons c cs =>
+          simp only [List.map_cons, List.cons.injEq, Option.some.injEq, reduceCtorEq, false_iff,
+            not_and]
+          intro _ h
+          have := (ih cs).mpr h
+          simp [hr] at this
+      | some bs =>
+        have hbs := (ih bs).mp hr
+        cases r with
+        | nil => simp
+        | cons c cs =>
+          simp only [Option.some.injEq, List.cons.injEq, List.map_cons]
+          constructor
+          · rintro ⟨rfl, rfl⟩; exact ⟨rfl, hbs⟩
+          · rintro ⟨rfl, h⟩
+            refine ⟨rfl, ?_⟩
+            have := (ih cs).mpr h
+            rw [hr] at this
+            exact Option.some.inj this
+
+theorem optMapList2_aux {α β : Type} (f : α → Option β) (m : List (List α)) (r : List (List β)) :
+    m.map (optMapList f) = r.map some ↔ m.map (List.map f) = r.map (List.map some) := by
+  induction m generalizing r with
+  | nil => cases r <;> simp
+  | cons a as ih =>
+    cases r with
+    | nil => simp
+    | cons c cs => simp [optMapList_eq_some_iff, ih]
+
+theorem Ten.optMap_eq_some_iff {α β : Type} (f : α → Option β) (t : Ten α) (v : Ten β) :
+    t.optMap f = some v ↔ t.map f = v.map some := by
+  cases t with
+  | sc a =>
+    cases v with
+    | sc b =>
+      simp only [Ten.optMap, Ten.map, Option.map_eq_some_iff, Ten.sc.injEq, exists_eq_right]
+    | vec _ => simp [Ten.optMap, Ten.map]
+    | mat _ => simp [Ten.optMap, Ten.map]
+  | vec l =>
+    cases v with
+    | vec r =>
+      simp only [Ten.optMap, Ten.map, Option.map_eq_some_iff, Ten.vec.injEq, exists_eq_right,
+        optMapList_eq_some_iff]
+    | sc _ => simp [Ten.optMap, Ten.map]
+    | mat _ => simp [Ten.optMap, Ten.map]
+  | mat m =>
+    cases v with
+    | mat r =>
+      simp only [Ten.optMap, Ten.map, Option.map_eq_some_iff, Ten.mat.injEq, exists_eq_right,
+        optMapList_eq_some_iff]
+      exact optMapList2_aux f m r
+    | sc _ => simp [Ten.optMap, Ten.map]
+    | vec _ => simp [Ten.optMap, Ten.map]
+
+/-- an `Option`-valued componentwise map that succeeds on the whole array succeeds on every
+indexed part, with the indexed part of the result; an index is refused for both or for none -/
+theorem getItem_optMap_cases {α β : Type} (f : α → Option β) (t : Ten α) (v : Ten β) (ix : List Ix)
+    (h : t.optMap f = some v) :
+    (getItem t ix = none ∧ getItem v ix = none) ∨
+    (∃ t' v', getItem t ix = some t' ∧ getItem v ix = some v' ∧ t'.optMap f = some v') := by
+  have hm := (Ten.optMap_eq_some_iff f t v).mp h
+  have hn : (getItem t ix).map (Ten.map f) = (getItem v ix).map (Ten.map some) := by
+    rw [← getItem_map, ← getItem_map, hm]
+  cases ht : getItem t ix with
+  | none =>
+    rw [ht] at hn
+    cases hv : getItem v ix with
+    | none => exact Or.inl ⟨rfl, rfl⟩
+    | some v' => rw [hv] at hn; simp at hn
+  | some t' =>
+    rw [ht] at hn
+    cases hv : getItem v ix with
+    | none => rw [hv] at hn; simp at hn
+    | some v' =>
+      rw [hv] at hn
+      simp only [Option.map_some, Option.some.injEq] at hn
+      exact Or.inr ⟨t', v', rfl, rfl, (Ten.optMap_eq_some_iff f t' v').mpr hn⟩
+
+/-- indexing commutes with an `Option`-valued componentwise map that succeeds on the whole array -/
+theorem getItem_optMap {α β : Type} (f : α → Option β) (t : Ten α) (v : Ten β) (ix : List Ix)
+    (h : t.optMap f = some v) : (getItem t ix).bind (Ten.optMap f) = getItem v ix := by
+  rcases getItem_optMap_cases f t v ix h with ⟨h1, h2⟩ | ⟨t', v', h1, h2, h3⟩
+  · rw [h1, h2]; rfl
+  · rw [h1, h2]; exact h3
+
+/-- the same for successive indexing -/
+theorem getChain_optMap {α β : Type} (f : α → Option β) (chain : List (List Ix)) (t : Ten α)
+    (v : Ten β) (h : t.optMap f = some v) :
+    (getChain t chain).bind (Ten.optMap f) = getChain v chain := by
+  induction chain generalizing t v with
+  | nil => simpa [getChain] using h
+  | cons ix rest ih =>
+    simp only [getChain]
+    rcases getItem_optMap_cases f t v ix h with ⟨h1, h2⟩ | ⟨t', v', h1, h2, h3⟩
+    · rw [h1, h2]; rfl
+    · rw [h1, h2]; exact ih t' v' h3
+
+theorem mem_of_mem_eraseDups : ∀ (n : Nat) (l : List String) (s : String), l.length ≤ n →
+    s ∈ l.eraseDups → s ∈ l := by
+  intro n
+  induction n with
+  | zero =>
+    intro l s hl hs
+    have : l = [] := List.length_eq_zero_iff.mp (Nat.le_zero.mp hl)
+    subst this; simp at hs
+  | succ n ih =>
+    intro l s hl hs
+    cases l with
+    | nil => simp at hs
+    | cons a as =>
+      rw [List.eraseDups_cons] at hs
+      rcases List.mem_cons.mp hs with h | h
+      · simp [h]
+      · have hlen : (as.filter (fun b => !b == a)).length ≤ n := by
+          have := List.length_filter_le (fun b => !b == a) as
+          simp only [List.length_cons] at hl
+          omega
+        have := ih _ s hlen h
+        exact List.mem_cons_of_mem _ (List.mem_filter.mp this).1
+
+/-- `eraseDups` keeps at most one copy: a predicate that only one value satisfies selects at most
+one element -/
+theorem eraseDups_filter_le_one : ∀ (n : Nat) (l : List String) (p : String → Bool) (v : String),
+    (∀ s, p s = true → s = v) → l.length ≤ n → ((l.eraseDups).filter p).length ≤ 1 := by
+  intro n
+  induction n with
+  | zero =>
+    intro l p v _ hl
+    have : l = [] := List.length_eq_zero_iff.mp (Nat.le_zero.mp hl)
+    subst this; simp
+  | succ n ih =>
+    intro l p v hp hl
+    cases l with
+    | nil => simp
+    | cons a as =>
+      rw [List.eraseDups_cons]
+      have hlen : (as.filter (fun b => !b == a)).length ≤ n := by
+        have := List.length_filter_le (fun b => !b == a) as
+        simp only [List.length_cons] at hl
+        omega
+      by_cases hpa : p a = true
+      · have hav : a = v := hp a hpa
+        have hrest : ((as.filter (fun b => !b == a)).eraseDups).filter p = [] := by
+          rw [List.filter_eq_nil_iff]
+          intro s hs hps
+          have h1 := mem_of_mem_eraseDups _ _ s (Nat.le_refl _) hs
+          have h2 := (List.mem_filter.mp h1).2
+          have : s = a := (hp s hps).trans hav.symm
+          simp [this] at h2
+        simp [hpa, hrest]
+      · have hpa' : p a = false := by simpa using hpa
+        simp only [List.filter_cons, hpa', Bool.false_eq_true, if_false]
+        exact ih _ p v hp hlen
+
+theorem sigVars_varsSig (sig : List (List String)) : sigVars (varsSig sig) = sigVars sig := by
+  simp [varsSig, sigVars, Function.comp_def]
+
+theorem varsSig_length (sig : List (List String)) : (varsSig sig).length = sig.length := by
+  simp [varsSig, sigVars]
+
+theorem sigFn_varsSig (sig : List (List String)) (s : String) : sigFn (varsSig sig) s = s := by
+  unfold sigFn
+  cases h : (varsSig sig).find? (fun l => l.contains s) with
+  | none => rfl
+  | some l =>
+    have hm := List.mem_of_find?_eq_some h
+    have hc := List.find?_some h
+    simp only [varsSig, List.mem_map] at hm
+    obtain ⟨v, _, rfl⟩ := hm
+    simp at hc
+    simp [hc]
+
+theorem replFn_nil (s : String) : replFn [] s = s := rfl
+
+/-- preparing a prepared expression for the signature of definite names changes nothing -/
+theorem prepare_varsSig (sig : List (List String)) (e : Expr) : prepare (varsSig sig) [] e = e := by
+  unfold prepare
+  rw [rename_id_on _ e (fun s _ => replFn_nil s), rename_id_on _ e (fun s _ => sigFn_varsSig sig s)]
+
+/-- the expression `__getitem__` builds is accepted: the prepared components of an accepted
+expression pass `_check_signature` for `signature=self.vars` -/
+theorem checkSignature_prepared (sig : List (List String)) (cnames : List String)
+    (repl : List (String × String)) (e : Expr) (h : checkSignature sig cnames repl e = true) :
+    checkSignature (varsSig sig) cnames [] (prepare sig repl e) = true := by
+  have hs := checkSignature_sound sig cnames repl e h
+  unfold checkSignature
+  have hid : rename (replFn []) (prepare sig repl e) = prepare sig repl e :=
+    rename_id_on _ _ (fun s _ => replFn_nil s)
+  simp only [hid, Bool.and_eq_true, List.all_eq_true]
+  constructor
+  · intro s hs'
+    have hmem := mem_of_mem_eraseDups _ _ s (Nat.le_refl _) hs'
+    rcases hs s hmem with h1 | h1
+    · simp only [Bool.or_eq_true, List.any_eq_true]
+      right
+      exact ⟨[s], by simp only [varsSig, List.mem_map]; exact ⟨s, h1, rfl⟩, by simp⟩
+    · simp [h1]
+  · intro l hl
+    simp only [varsSig, List.mem_map] at hl
+    obtain ⟨v, _, rfl⟩ := hl
+    simp only [decide_eq_true_eq]
+    exact eraseDups_filter_le_one _ _ _ v (fun s hs => by
+      simp only [Bool.and_eq_true] at hs
+      simpa using hs.1) (Nat.le_refl _)
+
+section field
+variable {K : Type} [Field K] [LinearOrder K] [IsStrictOrderedRing K]
+
+/-- the new expression `__getitem__` builds from a prepared component computes what the component
+of the original expression computes -/
+theorem exprFunction_reprepared (T : FunTab K) (sig : List (List String))
+    (consts : List (String × Val K)) (repl : List (String × String)) (e : Expr)
+    (args : List (Val K)) (v : K) (h : exprFunction T sig consts repl e args = some v) :
+    exprFunction T (varsSig sig) consts [] (prepare sig repl e) args = some v := by
+  unfold exprFunction at h ⊢
+  split_ifs at h with hc
+  simp only [Bool.and_eq_true, beq_iff_eq] at hc
+  have h1 := checkSignature_prepared sig (consts.map Prod.fst) repl e hc.1
+  simp only [h1, varsSig_length, hc.2, beq_self_eq_true, Bool.and_self, if_true, prepare_varsSig]
+  rw [← h]
+  unfold callEnv
+  rw [sigVars_varsSig]
+
+theorem optMapList_congr_some {α β γ : Type} (f : α → Option γ) (g : β → Option γ) (p : α → β)
+    (l : List α) (r : List γ) (hfg : ∀ a v, f a = some v → g (p a) = some v)
+    (h : optMapList f l = some r) : optMapList g (l.map p) = some r := by
+  induction l generalizing r with
+  | nil => simpa [optMapList] using h
+  | cons a as ih =>
+    simp only [optMapList, List.map_cons] at h ⊢
+    cases hfa : f a with
+    | none => simp [hfa] at h
+    | some b =>
+      cases hr : optMapList f as with
+      | none => simp [hfa, hr] at h
+      | some bs =>
+        simp only [hfa, hr] at h
+        rw [hfg a b hfa, ih bs hr]
+        exact h
+
+/-- the array version: the expression rebuilt from the prepared array (no index) computes the
+same array -/
+theorem tensorFunction_reprepared (T : FunTab K) (sig : List (List String))
+    (consts : List (String × Val K)) (repl : List (String × String)) (t : Ten Expr)
+    (args : List (Val K)) (v : Ten K) (h : tensorFunction T sig consts repl t args = some v) :
+    tensorFunction T (varsSig sig) consts [] (t.map (prepare sig repl)) args = some v := by
+  unfold tensorFunction at h ⊢
+  have hfg := fun e v h => exprFunction_reprepared T sig consts repl e args v h
+  cases t with
+  | sc e =>
+    simp only [Ten.optMap, Ten.map] at h ⊢
+    cases he : exprFunction T sig consts repl e args with
+    | none => simp [he] at h
+    | some w => rw [hfg e w he]; simpa [he] using h
+  | vec l =>
+    simp only [Ten.optMap, Ten.map] at h ⊢
+    cases hl : optMapList (fun e => exprFunction T sig consts repl e args) l with
+    | none => simp [hl] at h
+    | some r =>
+      rw [optMapList_congr_some _ _ _ l r hfg hl]; simpa [hl] using h
+  | mat m =>
+    simp only [Ten.optMap, Ten.map] at h ⊢
+    cases hm : optMapList (optMapList (fun e => exprFunction T sig consts repl e args)) m with
+    | none => simp [hm] at h
+    | some r =>
+      rw [optMapList_congr_some _ _ (fun row => row.map (prepare sig repl)) m r
+        (fun row w hw => optMapList_congr_some _ _ _ row w hfg hw) hm]
+      simpa [hm] using h
+
+/-- **index_function_eval**: `expr[index](*args)` - a NEW expression that `__getitem__` builds from the
+indexed, already prepared sympy array with `signature=self.vars`, the same constants and the same
+user functions (table `T`) - computes the indexed component(s) of what the whole expression
+computes: if the call of the whole array is accepted with value `v`, the indexed expression gives
+`v[index]` for EVERY index (and refuses exactly the indices that `v[index]` refuses) -/
+theorem index_function_eval (T : FunTab K) (sig : List (List String))
+    (consts : List (String × Val K)) (repl : List (String × String)) (t : Ten Expr)
+    (ix : List Ix) (args : List (Val K)) (v : Ten K)
+    (h : tensorFunction T sig consts repl t args = some v) :
+    indexedFunction T sig consts repl t ix args = getItem v ix := by
+  unfold indexedFunction
+  have h' := tensorFunction_reprepared T sig consts repl t args v h
+  unfold tensorFunction at h' ⊢
+  exact getItem_optMap _ _ v ix h'
+
+/-- the value of the whole array is made of the values of the components' own functions (what the
+driver's `c11.eval` computes component by component): component `i` of an accepted call of a
+rank-1 array is the accepted call of the `i`-th expression -/
+theorem tensorFunction_component (T : FunTab K) (sig : List (List String))
+    (consts : List (String × Val K)) (repl : List (String × String)) (l : List Expr)
+    (args : List (Val K)) (vs : List K)
+    (h : tensorFunction T sig consts repl (.vec l) args = some (.vec vs)) (i : Nat) (e : Expr)
+    (he : l[i]? = some e) : exprFunction T sig consts repl e args = vs[i]? := by
+  unfold tensorFunction at h
+  have hm := (Ten.optMap_eq_some_iff _ _ _).mp h
+  simp only [Ten.map, Ten.vec.injEq] at hm
+  have hi := congrArg (fun l => l[i]?) hm
+  simp only [List.getElem?_map, he, Option.map_some] at hi
+  cases hv : vs[i]? with
+  | none => rw [hv] at hi; simp at hi
+  | some v => rw [hv] at hi; simpa using hi
+
+/-- **chain_function_eval**: the same for successive indexing, `expr[index1][index2]...(*args)` (in
+particular `expr[i][j]`, which `index_index` identifies with `expr[i, j]`) -/
+theorem chain_function_eval (T : FunTab K) (sig : List (List String))
+    (consts : List (String × Val K)) (repl : List (String × String)) (t : Ten Expr)
+    (chain : List (List Ix)) (args : List (Val K)) (v : Ten K)
+    (h : tensorFunction T sig consts repl t args = some v) :
+    chainFunction T sig consts repl t chain args = getChain v chain := by
+  unfold chainFunction
+  have h' := tensorFunction_reprepared T sig consts repl t args v h
+  unfold tensorFunction at h' ⊢
+  exact getChain_optMap _ chain _ v h'
+
+/-- a chain of one index is the index -/
+theorem chainFunction_single (T : FunTab K) (sig : List (List String))
+    (consts : List (String × Val K)) (repl : List (String × String)) (t : Ten Expr)
+    (ix : List Ix) (args : List (Val K)) :
+    chainFunction T sig consts repl t [ix] args = indexedFunction T sig consts repl t ix args := by
+  unfold chainFunction indexedFunction
+  simp only [getChain]
+  cases getItem (Ten.map (prepare sig repl) t) ix <;> simp
+
+end field
+
+theorem Ten.map_congr {α β : Type} (f g : α → β) (t : Ten α) (h : ∀ a ∈ t.toList, f a = g a) :
+    t.map f = t.map g := by
+  cases t with
+  | sc a => simp [Ten.map, h a (by simp [Ten.toList])]
+  | vec l =>
+    simp only [Ten.map, Ten.vec.injEq]
+    exact List.map_congr_left (fun a ha => h a (by simpa [Ten.toList] using ha))
+  | mat m =>
+    simp only [Ten.map, Ten.mat.injEq]
+    apply List.map_congr_left
+    intro row hrow
+    apply List.map_congr_left
+    intro a ha
+    exact h a (by simp only [Ten.toList, List.mem_flatten]; exact ⟨row, hrow, ha⟩)
+
+section field
+variable {K : Type} [Field K] [LinearOrder K] [IsStrictOrderedRing K]
+
+/-- `depends_on(v) = False` is sound: rebinding `v` does not change the value of any component -/
+theorem dependsOn_sound (T : FunTab K) (sig : List (List String)) (repl : List (String × String))
+    (t : Ten Expr) (v : String) (env : Env K) (x : K) (h : dependsOn sig repl t v = false) :
+    evalTen T (env.set v x) (t.map (prepare sig repl)) =
+      evalTen T env (t.map (prepare sig repl)) := by
+  unfold evalTen
+  apply Ten.map_congr
+  intro e he
+  apply eval_congr_env
+  intro s hs
+  have hne : s ≠ v := by
+    rintro rfl
+    unfold dependsOn Ten.symbols at h
+    have : s ∈ (Ten.map (prepare sig repl) t).toList.flatMap symbols :=
+      List.mem_flatMap.mpr ⟨e, he, hs⟩
+    simp only [List.contains_eq_mem, decide_eq_false_iff_not] at h
+    exact h this
+  simp [Env.set, hne]
+
+end field
+
+example : dependsOn [["x", "q"], ["y"]] [] (.vec [.mul (.var "q") (.num 2), .num 1]) "x" = true ∧
+    dependsOn [["x", "q"], ["y"]] [] (.vec [.mul (.var "q") (.num 2), .num 1]) "y" = false := by
+  decide +kernel
+
+/-! ### non-vacuity of the indexing theorems (concrete calls over ℚ) -/
+
+/-- `[log(a), k*a, a**2]` with the user function `log(v) = 3*v + 1` (shadowing the table's name), the
+constant `k = 2` and the argument `a = 3`: component 1 is `6`, the user function is honoured in
+component 0 (`10`), the slice `[1:]` and the negative index `-1` read from the end -/
+example :
+    let T := withUser (algTab : FunTab ℚ) [⟨"log", ["v"], .add (.mul (.num 3) (.var "v")) (.num 1)⟩]
+    let t : Ten Expr := .vec [.call1 "log" (.var "a"), .mul (.var "k") (.var "a"), .powI (.var "a") 2]
+    tensorFunction T [["a"]] [("k", Val.sc 2)] [] t [Val.sc 3] = some (.vec [10, 6, 9]) ∧
+    indexedFunction T [["a"]] [("k", Val.sc 2)] [] t [.at 1] [Val.sc 3] = some (.sc 6) ∧
+    indexedFunction T [["a"]] [("k", Val.sc 2)] [] t [.at 0] [Val.sc 3] = some (.sc 10) ∧
+    indexedFunction T [["a"]] [("k", Val.sc 2)] [] t [.at (-1)] [Val.sc 3] = some (.sc 9) ∧
+    indexedFunction T [["a"]] [("k", Val.sc 2)] [] t [.slice (some 1) none] [Val.sc 3] = some (.vec [6, 9]) ∧
+    indexedFunction T [["a"]] [("k", Val.sc 2)] [] t [.at 3] [Val.sc 3] = none := by
+  decide +kernel
+
+/-- rank 2 with a synonym in the signature: `[[q, 1], [2*q, q**2]]`, signature `[["x", "q"]]`, x = 3 -/
+example :
+    let t : Ten Expr := .mat [[.var "q", .num 1], [.mul (.num 2) (.var "q"), .powI (.var "q") 2]]
+    indexedFunction (algTab : FunTab ℚ) [["x", "q"]] [] [] t [.at 1, .at 1] [Val.sc 3] = some (.sc 9) ∧
+    indexedFunction (algTab : FunTab ℚ) [["x", "q"]] [] [] t [.at 1] [Val.sc 3] = some (.vec [6, 9]) ∧
+    indexedFunction (algTab : FunTab ℚ) [["x", "q"]] [] [] t [.slice none none, .at 0] [Val.sc 3] = some (.vec [3, 6]) ∧
+    chainFunction (algTab : FunTab ℚ) [["x", "q"]] [] [] t [[.at 1], [.at 0]] [Val.sc 3] = some (.sc 6) ∧
+    getItem t [.at 0, .at 2] = none := by
+  decide +kernel
+
+/-- `Piecewise((1, x < 2), (x**2/4, True))` at x = 1 and at x = 3 -/
+example :
+    let e := select (.cmp .lt (.var "x") (.num 2)) (.num 1) (.div (.powI (.var "x") 2) (.num 4))
+    eval (algTab : FunTab ℚ) (bindEnv ["x"] [Val.sc 1] defaultEnv) e = 1 ∧
+    eval (algTab : FunTab ℚ) (bindEnv ["x"] [Val.sc 3] defaultEnv) e = 9 / 4 := by
   decide +kernel
 
 end PdeVerif.Ex
